@@ -112,6 +112,8 @@ class Contract:
         self.spec_loops = spec_loops or {}
         self.property_ids = tuple(property_ids)
         self.lemma = None
+        self.abstract = None      # callable(interp, args, kwargs) -> value: call-site contract with a fresh result
+        self.on_yield = None      # callable(interp, env, value): obligations at every `yield` of the real body
         self._spec_node = None
 
     def spec_node(self):
@@ -560,6 +562,8 @@ class World:
         c = self.contracts.get(qualname)
         if c is None:
             raise Unsupported('no contract for callee ' + qualname)
+        if c.abstract is not None and not self.spec_mode and construct is None:
+            return c.abstract(interp, list(args), dict(kwargs))
         node = c.spec_node()
         if node is None:
             raise Unsupported('contract of %s has no functional spec' % qualname)
